@@ -17,7 +17,7 @@ from vlib.core import Stage, fail
 ID = "C02"
 MANIFEST = {
     "category": "exploration",
-    "text": "Generated-input search over strings: well-formed expressions rendered from ASTs (40%), near misses made by 1-3 character edits of them (40%) and arbitrary text incl. exotic code points (20%) go through parse_condition_expression_to_tree, the AHB parser, the resolver and is_valid_expression. A hand-written tokenizer + recursive-descent recogniser decides accept/reject for the condition parser (both directions); for the resolver, strict C09 forms must be accepted, anything returned must be fully resolved and acceptable to a lenient AHB recogniser whose condition parts pass the strict recogniser, and everything else must raise SyntaxError; no other exception type may escape anywhere. The thorough tier adds a coverage-guided atheris stage driving the same oracle.",
+    "text": "Generated-input search over strings: well-formed expressions rendered from ASTs (40%), near misses made by 1-3 character edits of them (40%) and arbitrary text incl. exotic code points (20%) go through parse_condition_expression_to_tree, the AHB parser, the resolver and is_valid_expression. A hand-written tokenizer + recursive-descent recogniser decides accept/reject for the condition parser (both directions); for the resolver, strict C09 forms must be accepted, anything returned must be fully resolved and acceptable to a lenient AHB recogniser whose condition parts pass the strict recogniser, and everything else must raise SyntaxError; no other exception type may escape anywhere. One slice is enumerated completely: every string of length <= 4 (thorough: <= 5) over the 12-character alphabet '[]()1PUB. MX' (22 621 / 271 453 strings) through all entry points. The thorough tier adds a coverage-guided atheris stage driving the same oracle.",
     "note": "Trusted: the reference recogniser in vlib/ref.py (cross-validated against the parser on 10^5 strings with zero disagreements on the unchanged tree), Hypothesis, atheris. Two narrow unspecified zones where only the no-foreign-exception clause is checked: strings that are well-formed only if a repeatability may be written with non-ASCII decimal digits (the grammar's own \\d), and AHB strings containing U+017F / U+212A, which re.IGNORECASE folds onto the s / k of the modal marks. Keys and package keys must be ASCII integers.",
     "technique": "property-based testing / fuzzing of the parsers against an independent reference recogniser (differential, both directions)",
 }
@@ -257,6 +257,50 @@ def strategy(tier):
     return build()
 
 
+# ------------------------------------------------------------- bounded-exhaustive stage: all short strings
+
+SMALL_ALPHABET = "[]()1PUB. MX"
+SMALL_LENGTH = {"quick": 4, "thorough": 5}
+
+
+def enumerate_small(tier, shard, nshards, seed):  # pylint:disable=unused-argument
+    """one bulk case per (length, first two characters): every string over SMALL_ALPHABET up to the tier's length"""
+    index = 0
+    for first in SMALL_ALPHABET:
+        for second in SMALL_ALPHABET:
+            if index % nshards == shard:
+                yield {"prefix": first + second, "max_length": SMALL_LENGTH[tier]}
+            index += 1
+    if shard == 0:
+        yield {"prefix": "", "max_length": 1}
+
+
+def check_small(case):
+    import itertools
+
+    from vlib.core import Violation
+
+    prefix, max_length = case["prefix"], case["max_length"]
+    count = accepted = 0
+    sample = None
+    lengths = range(0, 2) if not prefix else range(0, max_length - len(prefix) + 1)
+    for extra in lengths:
+        for tail in itertools.product(SMALL_ALPHABET, repeat=extra):
+            text = prefix + "".join(tail)
+            if not prefix and extra == 0:
+                text = ""
+            try:
+                info = check({"class": "enumerated", "kind": "other", "s": text, "replace_time": True})
+            except Violation as violation:
+                raise Violation(violation.clause, violation.message, {"replay_stage": "strings", "replay_case": {
+                    "class": "arbitrary", "kind": "other", "s": text, "replace_time": True}})  # fmt: skip
+            count += 1
+            if info["resolver"] or info["cond"]:
+                accepted += 1
+                sample = text
+    return {"_bulk": {"evaluations": count, "nontrivial": accepted, "samples": [{"accepted": sample}] if sample else []}}
+
+
 # ------------------------------------------------------------------------------- coverage-guided stage (atheris)
 
 
@@ -323,5 +367,7 @@ STAGES = [
           budget={"quick": 700, "thorough": 15000}, key=lambda c: c["s"],
           floors={"class=wellformed": 0.25, "class=nearmiss": 0.25, "cond-accepted": 0.1, "cond-rejected": 0.3,
                   "resolver-accepted": 0.2, "resolver-rejected": 0.3}),
+    Stage(name="all-short-strings", kind="enum", check=check_small, classify=lambda c, i: (["prefix-block"], True),
+          enumerate=enumerate_small, exhaustive=True),
     Stage(name="fuzz", kind="enum", check=check_fuzz, classify=classify_fuzz, enumerate=enumerate_fuzz, tiers=("thorough",)),
 ]  # fmt: skip
